@@ -222,6 +222,18 @@ func (u *zzG06Univ) init(seed int64) {
 	}
 }
 
+// onGateway reports whether some lease of ls lies on a gateway address (no
+// table of the specification has one).
+func (u *zzG06Univ) onGateway(ls []zzG06L) (ok bool) {
+	for _, l := range ls {
+		for _, g := range u.GWs {
+			ok = ok || l.IP == g
+		}
+	}
+
+	return ok
+}
+
 func (u *zzG06Univ) addAddrs() (addrs []int) {
 	addrs = append(append(append(append([]int{}, u.Pool...), u.Outs...), u.GWs...), u.Fars...)
 	sort.Ints(addrs)
@@ -1065,7 +1077,7 @@ func zzG06RunHistory(u *zzG06Univ, base string, acts []zzG06Act) (src *zzG06Obs,
 }
 
 func (wk *zzG06Walk) report(a zzG06Act, srcNode string, src *zzG06Obs, want []zzG06Out, why string, r zzG06Reply, post *zzG06Obs, hist []zzG06Act) {
-	sig := a.Name + "|" + why + "|" + strings.Join(src.Prob, ";") + "|" + strings.Join(post.Prob, ";")
+	sig := a.Name + "|" + why + "|" + r.K + "|" + strings.Join(src.Prob, ";") + "|" + strings.Join(post.Prob, ";")
 	wk.mu.Lock()
 	wk.bad++
 	wk.sigs[sig]++
@@ -1465,7 +1477,7 @@ func TestZZVerifG06Trace(t *testing.T) {
 				Prob: post.Prob, SrcProb: cur.Prob, SrcDisk: cur.Disk, Run: run, Step: step})
 			fresh = false
 			cur = post
-			if !zzG06Soft(post.Prob) || !zzG06WellFormed(post.Ls) || !zzG06WellFormed(post.Disk) {
+			if !zzG06Soft(post.Prob) || !zzG06WellFormed(post.Ls) || !zzG06WellFormed(post.Disk) || u.onGateway(post.Ls) {
 				// Not a state of the specification any more: start afresh.
 				if err = y.reset(); err != nil {
 					t.Fatalf("reset: %v", err)
